@@ -8,7 +8,7 @@ ZK = ['affg','affp','dec','elog','enc','encelg','fac','log','logstar','mod','mul
 def field_req(name, typ):
     t = typ.strip()
     x = 'public.' + name
-    if t == '*paillier.PublicKey': return 'pkok(%s)' % x
+    if t == '*paillier.PublicKey': return 'pkok(%s) && pkvals(%s) && pkbig(%s)' % (x, x, x)
     if t == '*pedersen.Parameters': return 'pedok(%s)' % x
     if t == '*elgamal.Ciphertext': return '%s != nil && %s.L != nil && %s.M != nil' % (x, x, x)
     return '%s != nil' % x
@@ -79,9 +79,12 @@ for n in ZK:
             elif nm == 'public' and ty == 'Public': req.append(pub)
             elif nm == 'commitment' and ty.startswith('*'): req.append('commitment != nil')
         out.append('//@ func %s' % key)
+        out.append('//@   use bits')
         out.append('//@   nopanic[%s]' % ('C10' if n in ('dec','mul','mulstar') else 'C05'))
         if fname in ('IsValid', 'challenge') or (recvtype and recvtype != 'Proof'):
             out.append('//@   inline')
+        if fname == 'Verify' and recvtype == 'Proof':
+            out.append('//@   modifies hstate(hash)')
         if has_empty and recvtype == 'Proof':
             req.append('(p != nil ==> shaped(p))')
         if req:
